@@ -335,13 +335,25 @@ func run(c *core.Ctx) {
 	kind := t.Draw(len(kindNames))
 	nPool := 3 + t.Draw(6)
 	rich := t.Bool(3, 4)
+	// 1 run in 40 is a "big" run: a pool of 20..80 items, up to 64 initial members and a history of
+	// up to 150 calls, so that a collection grows past any small threshold (8, 16, 32, 64 members)
+	// at which an implementation might switch to another representation or strategy
+	big := t.Bool(1, 40)
+	if big {
+		nPool, rich = 20+t.Draw(61), false
+		c.Probe("big_run")
+	}
 	pool := makePool(t, nPool, rich)
 	// initial contents: nil, or a literal prefix of the pool; spare capacity knob
 	var initial []ap.Item
 	m := &model{}
 	if t.Bool(1, 2) {
 		k := 1 + t.Draw(nPool)
-		for i := 0; i < k && i < 4; i++ {
+		maxInit := 4
+		if big {
+			maxInit = 64
+		}
+		for i := 0; i < k && i < maxInit; i++ {
 			initial = append(initial, pool[i].it)
 			m.add(pool[i].id)
 		}
@@ -370,10 +382,25 @@ func run(c *core.Ctx) {
 	if c.Tier == "thorough" {
 		maxOps = 40
 	}
+	if big {
+		maxOps = 150
+	}
 	nOps := 1 + t.Draw(maxOps)
 	changes := 0
+	vpool := pool
 	for i := 0; i < nOps && !c.Failed(); i++ {
 		c.Rec.Ops++
+		if big {
+			// membership is asked for eight drawn pool items per step (contents and Count are compared
+			// in full every time) and for the whole pool every 16th step and at the end
+			vpool = pool
+			if i%16 != 15 && i != nOps-1 {
+				vpool = make([]poolItem, 8)
+				for j := range vpool {
+					vpool[j] = pool[t.Draw(nPool)]
+				}
+			}
+		}
 		via := intfMode == 1 || (intfMode == 2 && t.Bool(1, 2))
 		op := t.Draw(8)
 		switch {
@@ -391,7 +418,7 @@ func run(c *core.Ctx) {
 			}
 			m.add(p.id)
 			changes++
-			verify(c, ct, m, pool, via, step)
+			verify(c, ct, m, vpool, via, step)
 		case op == 3: // Append(x, y, x)
 			p, q := pool[t.Draw(nPool)], pool[t.Draw(nPool)]
 			step := fmt.Sprintf("Append(%s,%s,%s)", short(p.id), short(q.id), short(p.id))
@@ -405,7 +432,7 @@ func run(c *core.Ctx) {
 			m.add(p.id)
 			m.add(q.id)
 			changes++
-			verify(c, ct, m, pool, via, step)
+			verify(c, ct, m, vpool, via, step)
 		case op <= 5: // Remove(x) through the item-list view
 			if kind == 1 {
 				continue // IRI lists have no item-list view (ToItemCollection converts)
@@ -429,17 +456,17 @@ func run(c *core.Ctx) {
 			}
 			m.del(p.id)
 			changes++
-			verify(c, ct, m, pool, via, step)
+			verify(c, ct, m, vpool, via, step)
 		case op == 6: // Remove(nil)
 			if kind == 1 {
 				continue
 			}
 			c.Logf("Remove(nil)")
 			_ = ct.remove(nil)
-			verify(c, ct, m, pool, via, "Remove(nil)")
+			verify(c, ct, m, vpool, via, "Remove(nil)")
 		default: // Contains / Count only
 			c.Logf("Contains(*) Count()")
-			verify(c, ct, m, pool, via, "Contains")
+			verify(c, ct, m, vpool, via, "Contains")
 		}
 	}
 	c.Rec.Nontriv = changes > 0
